@@ -26,23 +26,26 @@ def T(n):
 
 
 def find_line_routine(prog, impl):
-    kern = None
-    for g in impl.children.values():
-        if g.jit is not None:
-            kern = g
-    if kern is None:
+    # the kernel is the jitted closure that calls the line routine (a module-level jit function of many parameters); other
+    # jitted closures are helpers of it
+    jits = [g for g in impl.children.values() if g.jit is not None]
+    if not jits:
         raise AnalysisIncomplete('proximity: jitted closure kernel not found')
-    line = None
-    cs = []
-    for n in kern.own_nodes():
-        if isinstance(n, ast.Call):
-            t = prog.resolve_callable(kern, kern.module, n.func)
-            if isinstance(t, Func) and t.jit is not None and len(t.params) > 10:
-                line = t
-                cs.append(n)
-    if line is None:
+    found = []
+    for kern in jits:
+        line = None
+        cs = []
+        for n in kern.own_nodes():
+            if isinstance(n, ast.Call):
+                t = prog.resolve_callable(kern, kern.module, n.func)
+                if isinstance(t, Func) and t.jit is not None and t.parent is None and len(t.params) > 10:
+                    line = t
+                    cs.append(n)
+        if line is not None:
+            found.append((kern, line, cs))
+    if len(found) != 1:
         raise AnalysisIncomplete('proximity: line routine not found')
-    return kern, line, cs
+    return found[0]
 
 
 def _one(r):
@@ -96,13 +99,176 @@ def _cell_of(r, arr, idx=None):
     return a.args[1], ser
 
 
+def distance_records(f, k):
+    """[(record of the metric dispatcher, x1, x2, y1, y2)] for every distance computation of the routine: the dispatcher is
+    the inlined helper that is handed one of the routine's scalar parameters (the metric); which of its coordinate
+    arguments are x (longitude) and which y (latitude) is read off the public metric function it reaches
+    (great_circle_distance(x1, x2, y1, y2): public names)"""
+    inl = getattr(k, 'inlined', [])
+    out = []
+    cur = None
+    for r in inl:
+        bound = dict(zip(r[0].params, r[1]))
+        bound.update(r[2] or {})
+        mp = [v for v in bound.values() if isinstance(v, tuple) and len(v) == 2 and v[0] == 'param' and v[1] in f.params]
+        if mp and r[0].name not in ('great_circle_distance', 'euclidean_distance', 'manhattan_distance'):
+            cur = [r, None, mp[0][1]]
+            out.append(cur)
+        elif cur is not None and r[0].name == 'great_circle_distance' and cur[1] is None and all(n_ in bound for n_ in ('x1', 'x2', 'y1', 'y2')):
+            vals = [repr(v) for v in cur[0][1]] + [repr(v) for v in (cur[0][2] or {}).values()]
+            if all(repr(bound[n_]) in vals for n_ in ('x1', 'x2', 'y1', 'y2')):
+                cur[1] = (bound['x1'], bound['x2'], bound['y1'], bound['y2'])
+    # wrappers around the dispatcher (handed the metric too, but not the coordinates themselves) are not distance computations
+    return [(r, xy, metric) for r, xy, metric in out if xy is not None]
+
+
+def pixel_of(k, L):
+    """the position on the line handled by one iteration of the pixel loop, as the interpreter sees it: the index of the
+    `proximity = 0` store of a target cell (the loop variable itself, or any expression of it)"""
+    z = [st for st in k.stores if isinstance(st.value, Rat) and st.value == Rat.const(0) and len(st.guards) == 1 and
+         not isinstance(st.idx, str) and len(st.idx) == 1 and st.loops and st.loops[0] is L]
+    return z[0].idx[0] if len(z) == 1 else Rat.sym(L.var)
+
+
+def sweep_order(L, PX, env):
+    """the positions visited by the pixel loop, in order, under env (direction flag and width bound)"""
+    lo, hi, stp = (evaluate(x, env) for x in (L.lo, L.hi, L.step))
+    if stp == 0 or lo.denominator != 1 or hi.denominator != 1 or stp.denominator != 1:
+        raise CannotEvaluate('loop range')
+    out = []
+    for kk in range(int(lo), int(hi), int(stp)):
+        e2 = dict(env)
+        e2[Sym(L.var)] = Fraction(kk)
+        out.append(evaluate(PX, e2))
+    return out
+
+
+def line_roles(prog, f, k):
+    """roles of the line routine's parameters, by what the routine does with them (names and order do not matter):
+    (src, xs, ys, pnx, pny, fwd, lid, width, maxd, prox, nxs, nys, vals, metric)"""
+    def fail(what):
+        raise AnalysisIncomplete('proximity line routine: %s not identified by its use' % what)
+    tops = []
+    for st in k.stores:
+        if st.loops and not any(st.loops[0] is t for t in tops):
+            tops.append(st.loops[0])
+    if len(tops) != 1:
+        fail('the pixel loop')
+    L = tops[0]
+    px = pixel_of(k, L)
+    P = set(f.params)
+
+    def arr_reads(x):
+        return {a.args[0] for a in walk_atoms(x) if isinstance(a, App) and a.name in ('read', 'cell?') and isinstance(a.args[0], str) and a.args[0] in P}
+
+    def syms(x):
+        return {a.name for a in walk_atoms(x) if isinstance(a, Sym) and a.name in P}
+    # direction flag and width: the loop range
+    rs = set()
+    for x in (L.lo, L.hi, L.step, px):
+        rs |= syms(x)
+    fwd = width = None
+    for a_ in sorted(rs):
+        for b_ in sorted(rs):
+            if a_ != b_:
+                try:
+                    seqs = [sweep_order(L, px, {Sym(a_): Fraction(v), Sym(b_): Fraction(7)}) for v in (1, 0)]
+                except (CannotEvaluate, TypeError, ValueError):
+                    continue
+                # the flag is the parameter whose two values flip the direction of a sweep over `width` pixels
+                if len(seqs[0]) == 7 and seqs[0] != seqs[1] and (fwd is None or seqs == [list(range(7)), list(range(6, -1, -1))]):
+                    fwd, width = a_, b_
+    if fwd is None:
+        fail('the direction flag / width of the pixel loop')
+    # the target branch: proximity 0, (pixel, line) into two pairs of arrays
+    zero = [st for st in k.stores if st.arr.name in P and isinstance(st.value, Rat) and st.value == Rat.const(0) and len(st.guards) == 1 and tuple(st.idx) == (px,)]
+    if len(zero) != 1:
+        fail('the result array (one store of 0 for a target cell)')
+    prox = zero[0].arr.name
+    gk = cond_key(zero[0].guards[0])
+    tgt = [st for st in k.stores if len(st.guards) == 1 and cond_key(st.guards[0]) == gk and tuple(st.idx) == (px,) and st is not zero[0]]
+    colA = sorted({st.arr.name for st in tgt if isinstance(st.value, Rat) and st.value == px})
+    rowB = {}
+    for st in tgt:
+        if isinstance(st.value, Rat) and st.value != px and len(syms(st.value)) == 1 and st.value == Rat.sym(next(iter(syms(st.value)))):
+            rowB.setdefault(next(iter(syms(st.value))), []).append(st.arr.name)
+    if len(colA) != 2 or len(rowB) != 1 or len(next(iter(rowB.values()))) != 2:
+        fail('the (column, row) pairs stored for a target cell')
+    lid = next(iter(rowB))
+    rowB = sorted(rowB[lid])
+    read_anywhere = set()
+    for st in k.stores:
+        read_anywhere |= arr_reads(st.value) if isinstance(st.value, Rat) else set()
+        for g in st.guards:
+            for a in guard_atoms([g]):
+                read_anywhere |= arr_reads(Rat.atom(a)) if isinstance(a, App) else set()
+        for ix in (st.idx if not isinstance(st.idx, str) else ()):
+            read_anywhere |= arr_reads(ix) if isinstance(ix, Rat) else set()
+    for r in getattr(k, 'inlined', []):
+        for v in list(r[1]) + list((r[2] or {}).values()):
+            if isinstance(v, Rat):
+                read_anywhere |= arr_reads(v)
+
+    def split(pair, what):
+        rd = [a for a in pair if a in read_anywhere]
+        if len(rd) != 1:
+            fail(what)
+        return rd[0], [a for a in pair if a != rd[0]][0]
+    pnx, nxs = split(colA, 'the column memory (read) vs the nearest-column result (only written)')
+    pny, nys = split(rowB, 'the row memory (read) vs the nearest-row result (only written)')
+    # coordinate grids and the metric: the distance computations
+    drecs = distance_records(f, k)
+    if not drecs or len({mt for r, xy, mt in drecs}) != 1:
+        fail('the distance computations (metric dispatcher reaching great_circle_distance)')
+    metric = drecs[0][2]
+    xsn, ysn = set(), set()
+    for r, (x1, x2, y1, y2), mt in drecs:
+        for v, acc in ((x1, xsn), (x2, xsn), (y1, ysn), (y2, ysn)):
+            a = _one(v)
+            if a is None or a.name not in ('read', 'cell?') or a.args[0] not in P:
+                fail('the coordinate grids (arguments of the distance are not grid reads)')
+            acc.add(a.args[0])
+    if len(xsn) != 1 or len(ysn) != 1 or xsn == ysn:
+        fail('the coordinate grids (x and y arguments of the distance read %s / %s)' % (sorted(xsn), sorted(ysn)))
+    xs, ys = next(iter(xsn)), next(iter(ysn))
+    # the target test: the line buffer at the pixel against the target values
+    gat = guard_atoms(zero[0].guards)
+    known = {prox, pnx, nxs, pny, nys, xs, ys}
+    in_test = set()
+    for a in gat:
+        if isinstance(a, App):
+            in_test |= {x for x in arr_reads(Rat.atom(a))}
+            in_test |= {x.args[0].name if isinstance(x.args[0], Sym) else None for x in walk_atoms(Rat.atom(a)) if isinstance(x, App) and x.name == 'len' and x.args} - {None}
+            in_test |= {x.args[0] for x in walk_atoms(Rat.atom(a)) if isinstance(x, App) and x.name in ('elem', 'shape', 'len') and x.args and isinstance(x.args[0], str) and x.args[0] in P}
+    in_test -= known
+    at_px = {a.args[0] for g in gat for a in ([g] if isinstance(g, App) else []) for a in walk_atoms(Rat.atom(a))
+             if isinstance(a, App) and a.name in ('read', 'cell?') and len(a.args) >= 2 and a.args[1] == px and a.args[0] in in_test}
+    if len(at_px) != 1 or len(in_test - at_px) > 1:
+        fail('the line buffer / target values of the target test (%s)' % sorted(in_test))
+    src = next(iter(at_px))
+    rest = [p_ for p_ in f.params if p_ not in known | {src, fwd, width, lid, metric}]
+    vals = next(iter(in_test - at_px)) if in_test - at_px else None
+    if vals is None:
+        # the values are not read in the test as the interpreter sees it (a helper, a lookup): the remaining array parameter
+        arrs = [p_ for p_ in rest if any(isinstance(n, ast.Subscript) and isinstance(n.value, ast.Name) and n.value.id == p_ for n in f.own_nodes())
+                or any(isinstance(n, ast.Call) and norm(n.func) == 'len' and n.args and norm(n.args[0]) == p_ for n in f.own_nodes())
+                or any(isinstance(n, ast.For) and norm(n.iter) == p_ for n in f.own_nodes())]
+        if len(arrs) != 1:
+            fail('the target values')
+        vals = arrs[0]
+    rest = [p_ for p_ in rest if p_ != vals]
+    if len(rest) != 1:
+        fail('max_distance (remaining scalar parameters %s)' % rest)
+    maxd = rest[0]
+    return (src, xs, ys, pnx, pny, fwd, lid, width, maxd, prox, nxs, nys, vals, metric)
+
+
 def check_line(prog, rep, f):
     """the line routine, on its interpretation: target test (X6), what enters the per-column memory (X1), the three
     candidates and the coupling between the running squared distance and the adopted pair (X2), the update (X5)"""
     entry = 'proximity line routine'
-    P = f.params
-    (src, xs, ys, pnx, pny, fwd, lid, width, maxd, prox, nxs, nys, vals, metric) = P[:14]
     k = interpret(prog, f, strict=False)
+    (src, xs, ys, pnx, pny, fwd, lid, width, maxd, prox, nxs, nys, vals, metric) = line_roles(prog, f, k)
     tops = []
     for st in k.stores:
         if st.loops and not any(st.loops[0] is t for t in tops):
@@ -111,17 +277,17 @@ def check_line(prog, rep, f):
         rep.add('X2', f, entry, 'pixel loop', f.node.lineno, None, 'single pixel loop not found')
         return
     L = tops[0]
-    px = Rat.sym(L.var)
+    px = pixel_of(k, L)
     line_id = Rat.sym(lid)
     FW, Wd = Sym(fwd), Sym(width)
     try:
-        rng = [tuple(evaluate(x, {FW: Fraction(v), Wd: Fraction(7)}) for x in (L.lo, L.hi, L.step)) for v in (1, 0)]
-        okr = rng == [(0, 7, 1), (6, -1, -1)]
-    except (CannotEvaluate, TypeError):
+        rng = [[int(x) for x in sweep_order(L, px, {FW: Fraction(v), Wd: Fraction(7)})] for v in (1, 0)]
+        okr = rng == [list(range(7)), list(range(6, -1, -1))]
+    except (CannotEvaluate, TypeError, ValueError):
         okr, rng = None, '?'
     rep.add('X3', f, entry, 'pixel loop: forward %s, backward %s on a line of 7' % (rng[0] if okr is not None else '?', rng[1] if okr is not None else '?'),
-            L.node.lineno, okr, 'a line is swept over all its pixels in the requested direction: forward 0..width step 1, backward '
-            'width-1..-1 step -1')
+            L.node.lineno, okr, 'a line is swept over all its pixels in the requested direction: forward 0, 1, .. width-1, backward '
+            'width-1, .. 1, 0')
     # ---- target / non-target split
     zero = [st for st in k.stores if st.arr.name == prox and isinstance(st.value, Rat) and st.value == Rat.const(0) and len(st.guards) >= 1]
     if len(zero) != 1:
@@ -144,11 +310,11 @@ def check_line(prog, rep, f):
             'columns with columns - and nothing else happens to it (stores %s, rest of the body skipped: %s)' % (sorted(got), cont))
     check_target_test(prog, rep, f, entry, k, L, gt, src, vals, px)
     # ---- candidates: the distance computations
-    recs = [r for r in getattr(k, 'inlined', []) if len(r[1]) == 5 and r[1][4] == ('param', metric)]
+    drecs = distance_records(f, k)
+    recs = [r for r, xy, mt in drecs]
     step = L.step
     cands = {}
-    for r in recs:
-        x1, x2, y1, y2 = r[1][:4]
+    for r, (x1, x2, y1, y2), mt in drecs:
         cur_x, cur_y = Rat.atom(App('read', [xs, line_id, px])), Rat.atom(App('read', [ys, line_id, px]))
         K = None
         okc = False
@@ -170,7 +336,22 @@ def check_line(prog, rep, f):
             'the distance must be computed from the coordinates of the pair remembered at k (row index from the row memory, '
             'column index from the column memory, x from the x grid, y from the y grid) to the current cell')
     ks = [c[0] for c in cands.values() if c[0] is not None]
-    okset = len(recs) == 3 and len(ks) == 3 and {repr(x) for x in ks} == {repr(px), repr(px - step), repr(px + step)}
+    # evaluated in the interior of a line, both directions: the slots are the pixel itself, the one visited just before and
+    # the one visited next
+    okset = len(recs) == 3 and len(ks) == 3
+    if okset:
+        try:
+            for fw in (1, 0):
+                env0 = {FW: Fraction(fw), Wd: Fraction(7)}
+                order = sweep_order(L, px, env0)
+                lo_, stp_ = evaluate(L.lo, env0), evaluate(L.step, env0)
+                for n_ in (2, 3, 4):
+                    env = dict(env0)
+                    env[Sym(L.var)] = lo_ + stp_ * n_
+                    if {evaluate(x, env) for x in ks} != {order[n_ - 1], order[n_], order[n_ + 1]}:
+                        okset = False
+        except (CannotEvaluate, TypeError, ValueError, IndexError):
+            okset = None
     rep.add('X2', f, entry, 'candidate set %s' % sorted(show(x - px, 40) for x in ks), L.node.lineno, okset,
             'the candidates are the targets remembered at the same column (line above/below), the previous pixel and the '
             'diagonal next pixel - exactly {pixel, pixel-step, pixel+step}')
@@ -263,7 +444,9 @@ def check_line(prog, rep, f):
                 for fw in (1, 0):
                     for p in (0, 3, 6):
                         for valid in (-1, 2):
-                            env = {FW: Fraction(fw), Wd: Fraction(7), Sym(L.var): Fraction(p)}
+                            env = {FW: Fraction(fw), Wd: Fraction(7)}
+                            order = sweep_order(L, px, env)
+                            env[Sym(L.var)] = evaluate(L.lo, env) + evaluate(L.step, env) * order.index(Fraction(p))
                             for a in cells:
                                 env[a] = Fraction(valid)
                             kv = evaluate(K, env)
@@ -312,7 +495,7 @@ def check_target_test(prog, rep, f, entry, k, L, gt, src, vals, px):
     n_at = [a for a in atoms if isinstance(a, App) and a.name == 'len']
     fin = [a for a in atoms if isinstance(a, App) and a.name == 'isfinite' and a.args[0] == Rat.atom(v)]
     flags = [a for a in atoms if isinstance(a, App) and a.name == 'loopout']
-    elems = [a for a in atoms if isinstance(a, App) and a.name in ('read', 'elem') and a.args[0] == vals]
+    elems = [a for a in atoms if isinstance(a, App) and a.name in ('read', 'elem') and (a.args[0] == vals or a.args[0] == Rat.sym(vals))]
     ok = None
     why = ''
     stale = [a for a in atoms if isinstance(a, Sym) and '~loop' in a.name]
@@ -355,16 +538,19 @@ def check_target_test(prog, rep, f, entry, k, L, gt, src, vals, px):
             else:
                 phi, post = Lv.carried[name]
                 P = next(iter(phi.atoms()))
-                e = [a for a in walk_atoms(post) if isinstance(a, App) and a.name in ('read', 'elem') and a.args[0] == vals]
-                full = Lv.kind in ('range', 'prange') and Lv.lo == Rat.const(0) and Lv.hi == Rat.atom(n_at[0]) and Lv.step == Rat.const(1) \
-                    and len(e) == 1 and len(e[0].args) == 2 and e[0].args[1] == Rat.sym(Lv.var)
+                def of_vals(a):
+                    return isinstance(a, App) and a.name in ('read', 'elem') and (a.args[0] == vals or a.args[0] == Rat.sym(vals))
+                e = [a for a in walk_atoms(post) if of_vals(a)]
                 # one iteration of the values loop, evaluated: the flag after it is the value set on a path that leaves the
                 # loop (`flag = True; break`) if such a path is taken, else the end-of-iteration value
                 brk = [(g_, envb.get(name)) for g_, envb, nb in getattr(Lv, 'breaks', []) if envb.get(name) is not None]
                 for g_, bv in brk:
-                    e = e or [a for a in guard_atoms(g_) if isinstance(a, App) and a.name in ('read', 'elem') and a.args[0] == vals]
-                full = Lv.kind in ('range', 'prange') and Lv.lo == Rat.const(0) and Lv.hi == Rat.atom(n_at[0]) and Lv.step == Rat.const(1) \
-                    and len(e) >= 1 and len(e[0].args) == 2 and e[0].args[1] == Rat.sym(Lv.var)
+                    e = e or [a for a in guard_atoms(g_) if of_vals(a)]
+                # every value is looked at: an index loop over 0..len(values), or the values iterated directly
+                full = len(e) >= 1 and len(e[0].args) == 2 and e[0].args[1] == Rat.sym(Lv.var) and (
+                    (Lv.kind in ('range', 'prange') and Lv.lo == Rat.const(0) and Lv.hi == Rat.atom(n_at[0]) and Lv.step == Rat.const(1)) or
+                    (Lv.kind == 'iter' and e[0].name == 'elem' and (getattr(Lv, 'iterable', None) == ('param', vals) or
+                                                                    getattr(getattr(Lv, 'iterable', None), 'name', None) == vals)))
                 tab = []
                 for prev in (0, 1):
                     for vv, ev in ((5, 5), (5, 7), (0, 0)):
@@ -393,7 +579,8 @@ def check_target_test(prog, rep, f, entry, k, L, gt, src, vals, px):
 def check_driver(prog, rep, kern, line, cs):
     """the four-sweep driver, on the program-ordered events (allocations, stores, calls) of its interpretation"""
     entry = 'proximity four-sweep driver'
-    k = interpret(prog, kern, strict=False)
+    # other jitted closures of the implementation are pieces of the driver: executed in place
+    k = interpret(prog, kern, strict=False, inline_all=lambda g: g.jit is not None and g.parent is kern.parent and g is not kern)
     ev = k.events
     calls_ = [(i, e[1]) for i, e in enumerate(ev) if e[0] == 'call' and len(e[1]) > 6 and e[1][6] is line]
     img = kern.params[0]
@@ -417,7 +604,17 @@ def check_driver(prog, rep, kern, line, cs):
             dirs.append('desc')
         else:
             dirs.append(repr(L))
-    fws = [c[1][5] for i, c in calls_]
+    P = line.params
+    pos = {p: i for i, p in enumerate(P)}
+    roles = line_roles(prog, line, interpret(prog, line, strict=False))
+    (src, xs, ys, pnx, pny, fwd, lid, width, maxd, prox, nxs, nys, vals, metric) = roles
+
+    def arg(c, p):
+        kws = c[5] if len(c) > 5 and isinstance(c[5], dict) else {}
+        if p in kws:
+            return kws[p]
+        return c[1][pos[p]] if pos[p] < len(c[1]) else None
+    fws = [arg(c, fwd) for i, c in calls_]
     passes = []
     for L in rows:
         if L is not None and not any(L is p for p in passes):
@@ -430,12 +627,6 @@ def check_driver(prog, rep, kern, line, cs):
             'one pass over ascending rows and one over descending rows, each sweeping every line forward and backward')
     if not oks:
         return
-    P = line.params
-    pos = {p: i for i, p in enumerate(P)}
-    (src, xs, ys, pnx, pny, fwd, lid, width, maxd, prox, nxs, nys, vals, metric) = P[:14]
-
-    def arg(c, p):
-        return c[1][pos[p]]
 
     def same(a, b):
         if isinstance(a, Arr) or isinstance(b, Arr):
@@ -443,7 +634,7 @@ def check_driver(prog, rep, kern, line, cs):
                 (isinstance(b, Arr) and isinstance(a, tuple) and a[:1] == ('param',) and a[1] == b.name)
         return repr(a) == repr(b)
     c0 = calls_[0][1]
-    shared = all(same(arg(c, p), arg(c0, p)) for i, c in calls_ for p in P[:14] if p not in (fwd, lid))
+    shared = all(same(arg(c, p), arg(c0, p)) for i, c in calls_ for p in roles if p not in (fwd, lid))
     lines_ok = all(arg(c, lid) == Rat.sym(r.var) for (i, c), r in zip(calls_, rows)) and all(arg(c, width) == W for i, c in calls_)
     rep.add('X3', kern, entry, 'the four calls pass the same arrays, the row being swept and the raster width', kern.node.lineno,
             shared and lines_ok, 'all four sweeps must work on the same line buffer, coordinate grids, memories and result arrays, '
